@@ -21,6 +21,7 @@ const (
 type Node struct {
 	Op       int // nPut, nDel, nNotify, nCall, nTryC (any try), nThrow, nAbort, nLocal, nNative
 	K, V     int // put/del key and value; notify: K = event number
+	Rep      int // notify: emitted Rep times (0 = once)
 	C        int // call: callee contract index
 	Fl       int // call / native call: requested call flags
 	Body     []*Node
@@ -29,6 +30,7 @@ type Node struct {
 	HasFin   bool
 	Fin      []*Node
 	Inl      bool // try: body is a single call executed in the context that owns the TRY
+	Tok      bool // call / native call: through a method token (CALLT, the static call path) where one exists
 	Nat      *NatOp
 	Inner    bool    // model only: a further phase of the running native method (no frame of its own)
 	Rest     []*Node // model only: the rest of the native method, run inside its frame
@@ -59,13 +61,33 @@ const (
 	natDelWl    // Policy.removeWhitelistFeeContract(contract To, "run", 1), committee
 	natNeoTransfer // NEO.transfer(self, To, Amt, data)
 	natVote     // NEO.vote(self, candidate if Val != 0 else null)
+	natRegCand  // NEO.registerCandidate(candidate key)
+	natUnregCand // NEO.unregisterCandidate(candidate key); Val = 1: the transaction carries the key owner's witness
+	natOracleReq // Oracle.request(url_Val, null, "cb", null, responseGas)
+	natOracleFinish // Oracle.finish()
+	natLock     // Notary.lockDepositUntil(self, till Val)
+	natWithdraw // Notary.withdraw(self, To)
 	// steps the NEO methods are desugared into (model only)
 	natNeoXferP
 	natVoteP
 	natMint
 	natRevoke
 	natBlockP
+	natDestroyP
 )
+
+const (
+	regTab      = 118
+	oracleTab   = 119
+	oracleAcc   = 13
+	responseGas = 10000000
+	tillTab     = 120
+	heightTab   = 121
+	depositDelta = 5760
+	numNefs     = 3 // NEF variants of the interpreter contract (0 = as deployed)
+)
+
+var oracleURLs = []string{"https://a.example/x", "https://b.example/y"}
 
 var roles = []int{4, 8, 16} // StateValidator, Oracle, NeoFSAlphabetNode
 
@@ -97,7 +119,11 @@ func nodeText(sb *strings.Builder, n *Node) {
 	case nDel:
 		fmt.Fprintf(sb, "D %d ", n.K)
 	case nNotify:
-		fmt.Fprintf(sb, "N %d ", n.K)
+		if n.Rep > 1 {
+			fmt.Fprintf(sb, "NN %d %d ", n.K, n.Rep)
+		} else {
+			fmt.Fprintf(sb, "N %d ", n.K)
+		}
 	case nCall:
 		fmt.Fprintf(sb, "C %d %d ", n.C, n.Fl)
 		listText(sb, n.Body)
@@ -132,9 +158,21 @@ func nodeText(sb *strings.Builder, n *Node) {
 		case natDeploy:
 			fmt.Fprintf(sb, "Y %d %d ", n.Nat.Val, n.Fl)
 		case natUpdate:
-			fmt.Fprintf(sb, "M %d ", n.Fl)
+			fmt.Fprintf(sb, "M %d %d ", n.Nat.Val, n.Fl)
 		case natDestroy:
-			fmt.Fprintf(sb, "Z %d ", n.Fl)
+			fmt.Fprintf(sb, "Z %d %d ", n.Fl, n.Nat.Tag)
+		case natRegCand:
+			fmt.Fprintf(sb, "KR %d ", n.Fl)
+		case natUnregCand:
+			fmt.Fprintf(sb, "KU %d %d ", n.Nat.Val, n.Fl)
+		case natOracleReq:
+			fmt.Fprintf(sb, "OR %d %d ", n.Nat.Val, n.Fl)
+		case natOracleFinish:
+			fmt.Fprintf(sb, "OF %d ", n.Fl)
+		case natLock:
+			fmt.Fprintf(sb, "NL %d %d ", n.Nat.Val, n.Fl)
+		case natWithdraw:
+			fmt.Fprintf(sb, "NW %d %d ", n.Nat.To, n.Fl)
 		case natDesignate:
 			fmt.Fprintf(sb, "R %d %d %d ", n.Nat.To, n.Nat.Val, n.Fl)
 		case natSetWl:
@@ -169,6 +207,11 @@ type world struct {
 	mgmt     util.Uint160
 	roleMgmt util.Uint160
 	notary   util.Uint160
+	oracle   util.Uint160
+	nefs     [numContracts][numNefs][]byte // serialized NEF variants of the interpreter contracts
+	nefSums  [numContracts][numNefs]uint32
+	natTok   map[string]int         // method tokens of native methods: hash.method/nparams -> token index
+	conTok   map[[2]int]int         // method tokens of `run` of contracts 0,1: (callee, flags) -> token index (contracts 2,3 only)
 	candKey  []byte                 // public key of the registered candidate
 	nodeSets map[int][]any          // designated node lists (public keys)
 	manifests [numContracts][]byte  // manifest used by ContractManagement.update
@@ -225,7 +268,27 @@ func (w *world) nativeArgs(n *Node, self util.Uint160, selfID int) (util.Uint160
 		if selfID < numContracts {
 			man = w.manifests[selfID]
 		}
-		return w.mgmt, "update", []any{nil, man}
+		var ne any
+		if n.Nat.Val != 0 && selfID < numContracts {
+			ne = w.nefs[selfID][n.Nat.Val]
+		}
+		return w.mgmt, "update", []any{ne, man}
+	case natRegCand:
+		return w.neo, "registerCandidate", []any{w.candKey}
+	case natUnregCand:
+		return w.neo, "unregisterCandidate", []any{w.candKey}
+	case natOracleReq:
+		return w.oracle, "request", []any{oracleURLs[n.Nat.Val], nil, "cb", nil, int64(responseGas)}
+	case natOracleFinish:
+		return w.oracle, "finish", []any{}
+	case natLock:
+		return w.notary, "lockDepositUntil", []any{self, int64(n.Nat.Val)}
+	case natWithdraw:
+		to := w.plain[n.Nat.To]
+		if n.Nat.To < numContracts {
+			to = w.hashes[n.Nat.To]
+		}
+		return w.notary, "withdraw", []any{self, to}
 	case natDestroy:
 		return w.mgmt, "destroy", []any{}
 	case natDesignate:
@@ -251,13 +314,19 @@ func (w *world) encNode(n *Node, self int) any {
 	case nDel:
 		return []any{int64(nDel), keyBytes(n.K)}
 	case nNotify:
-		return []any{int64(nNotify), int64(n.K)}
+		return []any{int64(nNotify), int64(n.K), int64(max(n.Rep, 1))}
 	case nCall:
+		if k, ok := w.conTok[[2]int{n.C, n.Fl}]; ok && n.Tok && self >= 2 && self < numContracts {
+			cov["path:contract-call-through-method-token"]++
+			return []any{int64(nCallT), int64(k), w.encList(n.Body, n.C)}
+		}
 		return []any{int64(nCall), w.hashes[n.C], int64(n.Fl), w.encList(n.Body, n.C)}
 	case nTryC:
 		var body []any
-		if n.Inl {
-			body = []any{w.encNode(n.Body[0], self)}
+		if n.Inl { // the inline form is a System.Contract.Call emitted by the handler itself: never a token call
+			b0 := *n.Body[0]
+			b0.Tok = false
+			body = []any{w.encNode(&b0, self)}
 		} else {
 			body = w.encList(n.Body, self)
 		}
@@ -279,6 +348,10 @@ func (w *world) encNode(n *Node, self int) any {
 		return []any{int64(nIf), keyBytes(n.K), w.encList(n.Body, self)}
 	case nNative:
 		h, m, args := w.nativeArgs(n, w.hashes[self], self)
+		if k, ok := w.natTok[tokKey(h, m, len(args))]; ok && n.Tok && n.Fl == 15 {
+			cov["path:native-call-through-method-token"]++
+			return []any{int64(nNativeT), int64(k), args}
+		}
 		return []any{int64(nNative), h, m, int64(n.Fl), args}
 	}
 	panic("bad node")
@@ -323,11 +396,13 @@ func (c *compiler) node(n *Node) {
 		a.syscall(interopnames.SystemStorageGetContext)
 		a.syscall(interopnames.SystemStorageDelete)
 	case nNotify:
-		a.int(int64(n.K))
-		a.int(1)
-		a.ops(opcode.PACK)
-		a.str(eventName)
-		a.syscall(interopnames.SystemRuntimeNotify)
+		for i := 0; i < min(max(n.Rep, 1), 4); i++ { // the entry script may not notify at all: the first one faults
+			a.int(int64(n.K))
+			a.int(1)
+			a.ops(opcode.PACK)
+			a.str(eventName)
+			a.syscall(interopnames.SystemRuntimeNotify)
+		}
 	case nCall:
 		emitAny(a, []any{c.w.encList(n.Body, n.C)})
 		a.int(int64(n.Fl))
